@@ -1415,6 +1415,24 @@ def rule_r18(repo, run, T):
                               "<string>, <vector> behind it) gets C linkage - `template with C linkage` when the header is "
                               "compiled on its own", m.loc(node))
     run.floor(R, "header lists in functions that open extern \"C\"", n, 5)
+    # the file with the memory destructor includes the headers of the types it releases: the typemap handed to
+    # add_capsule_code is the declared type's (std::vector<int>, not int) and both header lists of it are recorded
+    wc = repo.module("wrapc")
+    fi = wc.func("Wrapc.find_idtor")
+    calls = [c for c in ast.walk(fi) if isinstance(c, ast.Call) and (pyflow.call_name(c) or "") == "self.add_capsule_code" and len(c.args) >= 2]
+    named = [c for c in calls if "destructor_name" in ast.unparse(c.args[0])]
+    if not named:
+        raise AnalysisError("C05.R18: find_idtor no longer registers the statements' destructor_name")
+    for c in named:
+        run.check(R, "wrapc.Wrapc.find_idtor:add_capsule_code(destructor_name, typemap)", ast.unparse(c.args[1]).endswith(".typemap"),
+                  "the destructor of `%s` is registered with the typemap `%s`: for `std::vector<int> &` that is the typemap of the "
+                  "template argument (int), so the library file uses std::vector without <vector>"
+                  % ("std_vector_{flat_T}", ast.unparse(c.args[1])), wc.loc(c))
+    ac = wc.func("Wrapc.add_capsule_code")
+    lists = set(x.attr for x in ast.walk(ac) if isinstance(x, ast.Attribute) and x.attr.endswith("_header") and "typemap" in ast.unparse(x.value))
+    run.check(R, "wrapc.Wrapc.add_capsule_code:headers", {"cxx_header", "impl_header"} <= lists,
+              "add_capsule_code records %s of the released type: std::string keeps <string> in impl_header (the header of the "
+              "implementation file, which is where the destructor is written)" % sorted(lists), wc.loc(ac))
 
 
 # keys of a statement entry whose value is a list of names (helpers, destructors), not code
@@ -1534,6 +1552,44 @@ def rule_r20(repo, run, T):
     run.floor(R, "typed format-field assignments", n, 6)
 
 
+def rule_r22(repo, run, T):
+    R = run.rule("C05.R22", "the code that creates a submodule (`register_submodule`) is written into the init function of the "
+                            "library module and of every namespace module alike: every name it uses (the init function of the "
+                            "child, INITERROR) is declared in both kinds of file")
+    wp = repo.module("wrapp")
+    rs = wp.func("Wrapp.register_submodule")
+    text = " ".join(c.value for c in ast.walk(rs) if isinstance(c, ast.Constant) and isinstance(c.value, str))
+    macros = set(re.findall(r"\b([A-Z][A-Z0-9_]{3,})\b", text)) - {"PY_"}
+    macros = set(m_ for m_ in macros if m_ in ("INITERROR", "RETVAL"))
+    # templates of the two kinds of module file
+    tmpl = {}
+    for a in wp.tree.body:
+        if isinstance(a, ast.Assign) and isinstance(a.targets[0], ast.Name) and pyflow.const_str(a.value):
+            tmpl[a.targets[0].id] = pyflow.const_str(a.value)
+    top = " ".join(v for k, v in tmpl.items() if k.startswith("module_"))
+    sub = " ".join(v for k, v in tmpl.items() if k.startswith("submodule_"))
+    if not top or not sub:
+        raise AnalysisError("C05.R22: module / submodule templates of wrapp.py not found")
+    for m_ in sorted(macros):
+        run.check(R, "wrapp.submodule-templates:#define %s" % m_, ("#define %s" % m_) in sub or ("#define %s" % m_) not in top,
+                  "register_submodule writes `%s` into the init function of whatever module has namespaces; the macro is defined in "
+                  "the library's module file only: the module of a namespace that contains a namespace does not compile" % m_,
+                  wp.loc(rs))
+    # prototypes of the children's init functions
+    wm = wp.func("Wrapp.write_module")
+    protos_top = any(isinstance(c, ast.Call) and "module_init_decls" in ast.unparse(c) for c in ast.walk(wm))
+    protos_sub = False
+    for i in ast.walk(wm):
+        if isinstance(i, ast.If) and ast.unparse(i.test) in ("top", "not top"):
+            arm = i.orelse if ast.unparse(i.test) == "top" else i.body
+            if any("init_{PY_module_init}" in (c.value if isinstance(c, ast.Constant) and isinstance(c.value, str) else "")
+                   or "module_init_decls" in ast.unparse(c) for st in arm for c in ast.walk(st)):
+                protos_sub = True
+    run.check(R, "wrapp.Wrapp.write_module:submodule-init-prototypes", (not protos_top) or protos_sub,
+              "the prototypes `PyObject *PY_init_<module>(void);` are written into the library's module file only; a namespace module "
+              "that creates the submodule of an inner namespace calls an undeclared function", wp.loc(wm))
+
+
 def run(repo, run, tier):
     tables.check_model_assumptions(repo)
     T = dict(
@@ -1563,6 +1619,7 @@ def run(repo, run, tier):
     rule_r18(repo, run, T)
     rule_r19(repo, run, T)
     rule_r20(repo, run, T)
+    rule_r22(repo, run, T)
     run.assumptions.extend([
         "field universe is an over-approximation (any attribute store / Scope keyword in the emitter's "
         "modules defines the field): a report means no assignment exists at all",
